@@ -186,9 +186,44 @@ class _Null:
         return False
 
 
+def run_batch(batch: list, run_one) -> list:
+    """The runs of a batch execute one after the other in ONE process, so whatever module-level state the library keeps
+    carries over from run to run: a hidden history.  A violating run is therefore reported together with the runs that
+    preceded it in its process (`history`); the minimiser first tries the run alone, then bisects the history."""
+    results = []
+    for j, s in enumerate(batch):
+        r = run_one(s)
+        if isinstance(r, dict) and r.get("status") == "violation":
+            r["spec"] = dict(s, history=[{k: v for k, v in h.items() if k != "history"} for h in batch[:j]])
+        results.append(r)
+    return results
+
+
+def run_history_prefix(spec: dict, log: EventLog):
+    "execute the generator calls that preceded this run in its process (outcomes are irrelevant, only their side effects)"
+    hist = spec.get("history") or []
+    for h in hist:
+        try:
+            execute(h, EventLog())
+        except BaseException:  # noqa: BLE001 - a failing predecessor is still a predecessor
+            pass
+    if hist:
+        log.add("history", len(hist))
+
+
 def shrink_candidates(spec: dict, result: dict):
-    """simpler specs first: smaller grid, fewer kwargs, then scripted replay of the recorded draws with
-    spans removed / zeroed"""
+    """simpler specs first: no / shorter process history, smaller grid, fewer kwargs, then scripted replay of the recorded
+    draws with spans removed / zeroed"""
+    hist = spec.get("history") or []
+    if hist:
+        yield dict(spec, history=[])
+        span = len(hist) // 2
+        while span >= 1:
+            for start in range(0, len(hist), span):
+                cand = hist[:start] + hist[start + span :]
+                if len(cand) < len(hist):
+                    yield dict(spec, history=cand)
+            span //= 2
     r, c = spec["shape"]
     for rr, cc in ((r - 1, c), (r, c - 1), (r - 1, c - 1), (max(1, r // 2), max(1, c // 2))):
         if rr >= 1 and cc >= 1 and (rr, cc) != (r, c):
